@@ -92,3 +92,11 @@ package trace
 //@   assert@call tracer.newNonRecordingSpan#1 : sc.traceID == tid && sc.spanID == sid && sc.traceState == samplingResult.Tracestate && !sc.IsSampled() && sc.traceFlags / 2 == psc.traceFlags / 2 && !sc.remote
 //@   assert@call tracer.newRecordingSpan#1 : samplingResult.Decision != Drop
 //@   assert@call tracer.newRecordingSpan#1 : sc.traceID == tid && sc.spanID == sid && sc.traceState == samplingResult.Tracestate && sc.IsSampled() == (samplingResult.Decision == RecordAndSample) && sc.traceFlags / 2 == psc.traceFlags / 2 && !sc.remote
+
+// ======================================================================== C20 configuration: bad values never crash the host
+// No run-time panic for every integer the environment or an option can supply (make(chan)/make([]T) sizes).
+//@ func NewBatchSpanProcessor(exporter SpanExporter, options []BatchSpanProcessorOption) (sp SpanProcessor)
+//@   prop C20
+//@   overflow assumed
+//@   requires forall i in 0 .. len(options) : options[i] != nil
+//@   ensures sp != nil
